@@ -34,6 +34,12 @@ CHECKS.update({
             "Bounded domain; TLC as generator and oracle; the python fallback of nearest_common_descendant (coptrs is not installed)."),
 })
 
+CHECKS.update({
+    "C06": ("model_checking", "acked", "TLC model checking of spec/Acked.tla (safety + liveness under fair loops, both directions, drop/dup/reorder) + TLC -simulate behaviours replayed into the real ReliableSender/Listener driven by the real Bridge.recv_events and Executor.recv_loop; frame-shape catalogue judged by TLC",
+            "Exactly-once delivery, ack-implies-delivered, bounded retries then raise, and eventual delivery-or-raise hold for every fault pattern within the bounds; the real endpoints follow TLC-generated behaviours step by step (idx, inflight budgets and staleness, frames on the wire, acked sets, delivered messages, raise); every multipart shape <= 4 parts is classified by the real Listener as the spec's RecvOne says.",
+            "Bounds: <=2 messages per direction, retry budget 2-3 (code constant patched in the harness), <=3 faults; one executor; in-memory network and virtual clock (harness fakes); heartbeats off."),
+})
+
 NOT_YET = {
 }
 
@@ -64,6 +70,8 @@ def main():
              "kind_free_text": "TLC model checking of spec/Cascade.tla per instance + recorded executions of the real controller validated by TLC against spec/CascadeTrace.tla"},
             {"name": "p3", "path": "harness/p3.py", "serves_properties": ["C16"],
              "kind_free_text": "enumerate / execute / validate: TLC generates the cases from the spec's domain, the harness runs the real function, TLC evaluates the spec's post-condition"},
+            {"name": "acked", "path": "harness/props/c06.py", "serves_properties": ["C06"],
+             "kind_free_text": "TLC on spec/Acked.tla + behaviour replay into the real comms layer and endpoint loops"},
             {"name": "shm", "path": "harness/shm_engine.py", "serves_properties": ["C08", "C09"],
              "kind_free_text": "TLC model checking of spec/Shm.tla + TLC-generated behaviours replayed into the real Manager"},
         ],
